@@ -189,12 +189,13 @@ def gen(rng, tier, escalate):
         vals = sorted(_members(_parts(rng)))
         cases.append({"kind": "reparse", "text": _compress_ref(vals), "ops": [["str"], ["list"], ["len"]]})
     # (iii) large ranges
+    large = []
     for i in range(16 if big else 5):
         a = rng.choice([0, 1, rng.randint(0, 30000)])
         b = rng.choice([70000, 65536, rng.randint(a + 20000, 70000)])
         parts = [[a, b], [rng.randint(0, 70000)], [max(0, b - 10), min(70000, b + 5)]]
         rng.shuffle(parts)
-        cases.append({"kind": "large", "text": _render(parts, rng), "parts": parts,
+        large.append({"kind": "large", "text": _render(parts, rng), "parts": parts,
                       "ops": [["len"], ["str"], ["remove", (a + b) // 2], ["str"], ["append", (a + b) // 2], ["list"], ["contains", b]]})
     # (iv) malformed
     for t in MALFORMED:
@@ -208,6 +209,10 @@ def gen(rng, tier, escalate):
         cases.append({"kind": "mutated", "text": text, "ops": [["list"], ["str"], ["len"]]})
     cases.append({"kind": "empty", "text": "", "ops": [["len"], ["list"], ["set"], ["str"], ["iter"], ["contains", 1], ["remove", 1],
                                                        ["append", 5], ["append", 5], ["append", 3], ["list"], ["str"], ["remove", 5], ["iter"]]})
+    # the large cases are spread over the shards (one coqc each)
+    step = max(1, len(cases) // (len(large) + 1))
+    for k, c in enumerate(large):
+        cases.insert(min(len(cases), (k + 1) * step), c)
     return cases
 
 
